@@ -217,5 +217,39 @@ def r5(ctx):
                   'bloom response no longer selected between authenticated/untrusted lists', s.where(), sample=a[:300])
 
 
-RULES = [r1, r2, r3, r4, r5]
-FLOORS = {'C07-R1': 8, 'C07-R2': 6, 'C07-R3': 8, 'C07-R4': 10, 'C07-R5': 3}
+def r6(ctx):
+    ctx.rule('C07-R6', 'the identifier check of valid_server_response is armed for every NTS request: both NTS request builders (NTPv4 and NTPv5) put a fresh random '
+             'unique identifier into the authenticated fields and return RequestIdentifier{uid: Some(that same identifier)}; handle_timer stores the returned identifier')
+    P = ctx.P
+    for nm in ('nts_poll_message', 'nts_poll_message_v5'):
+        b = P.body('ntp_proto::packet::NtpPacket::' + nm)
+        uid = b.aggregates(r'extension_fields::ExtensionField$', 'UniqueIdentifier')
+        rid = b.aggregates(r'RequestIdentifier$')
+        ctx.check('%s|sites' % nm, len(uid) == 1 and len(rid) == 1, '%s: UniqueIdentifier fields %d, RequestIdentifier literals %d (the identifier of the header builder is returned unchanged?)' % (nm, len(uid), len(rid)),
+                  sample=[len(uid), len(rid)])
+        if len(uid) != 1 or len(rid) != 1:
+            continue
+        u = b.operand_term(uid[0].data['rv']['ops'][0])
+        f = dict(zip(rid[0].data['rv']['fields'], rid[0].data['rv']['ops']))
+        r = b.operand_term(f['uid'])
+        rs = S(r)
+        m = re.match(r'^Option::Some\{0: (.*)\}$', rs, re.S)
+        ctx.check('%s|uid-is-some' % nm, m is not None, 'returned uid is %s' % rs[:120], rid[0].where(), sample=rs[:80])
+        if m:
+            ident = m.group(1)
+            ctx.check('%s|uid-random' % nm, re.search(r'Rng::r#gen\(|rand::random|RngCore::fill', ident) is not None, 'identifier is %s' % ident[:120], rid[0].where(), sample=ident[:80])
+            ctx.check('%s|same-identifier-sent' % nm, S(u) == 'T::into(slice::to_vec(%s))' % ident and N(u).count('(') == N(u).count(')'), 'sent identifier %s, remembered %s' % (S(u)[:100], ident[:100]), uid[0].where(), sample=S(u)[:80])
+            # same binding, not merely the same expression (two calls to the generator would print alike)
+            nu = re.match(r'^T::into\(slice::to_vec\((.*)\)\)$', N(u), re.S)
+            nr = re.match(r'^Option::Some\{0: (.*)\}$', N(r), re.S)
+            ctx.check('%s|one-generated-value' % nm, bool(nu and nr and nu.group(1) == nr.group(1) and re.match(r'^\w+$', nu.group(1))), 'sent %s, remembered %s' % (N(u)[:80], N(r)[:80]), sample=True)
+        rets = [v for _, v in ret_assigns(b)]
+        ctx.check('%s|returns-that-identifier' % nm, len(rets) == 1 and re.search(r', RequestIdentifier\{expected_origin_timestamp: .*, uid: Option::Some\{0: ', rets[0], re.S) is not None, 'returns %s' % [v[-160:] for v in rets], sample=len(rets))
+    ht = P.body(SRC + '::handle_timer')
+    ws = [(s, written_value(ht, s)) for s, fld in self_writes(ht) if fld == 'current_request_identifier' and s.kind == 'assign']
+    ok = len(ws) >= 1 and all(re.match(r'^Option::Some\{0: \(.*\{.*\}\.1, ', v, re.S) or re.match(r'^Option::Some\{0: \(', v) for _, v in ws)
+    ctx.check('handle_timer|stores-identifier', ok, 'current_request_identifier written with %s' % [v[:120] for _, v in ws], sample=len(ws))
+
+
+RULES = [r1, r2, r3, r4, r5, r6]
+FLOORS = {'C07-R1': 8, 'C07-R2': 6, 'C07-R3': 8, 'C07-R4': 10, 'C07-R5': 3, 'C07-R6': 11}
